@@ -31,6 +31,9 @@ def scenarios(ctx: Ctx, res: Result):
     for sc in gc.instant_completion_family():
         res.count('instant_completion_family')
         yield sc
+    for sc in gc.remote_then_local_family():
+        res.count('remote_then_local_family')
+        yield sc
     for _ in range(600 if ctx.thorough else 80):
         res.count('random_singleton')
         sc = gc.fault_scenario(ctx.rng)
